@@ -14,7 +14,9 @@ VARIABLES cs, done
 Meta == {39, 34, 92, 44, 9, 10, 13, 0, 38, 60, 62, 37, 43, 32, 61, 59, 36, 96, 97, 65, 126, 47, 228, 8364, 128578, -255, -128, 31, 127, 8, 12}
 RECURSIVE SeqsUpTo(_, _)
 SeqsUpTo(A, n) == IF n = 0 THEN {<<>>} ELSE SeqsUpTo(A, n - 1) \cup {Append(s, a) : s \in SeqsUpTo(A, n - 1), a \in A}
-Strs == {StrV(s) : s \in SeqsUpTo(Meta, Size)}
+\* for Size >= 3 the alphabet is reduced to the characters with a treatment of their own
+Meta3 == {34, 92, 47, 0, 10, 31, 127, 97, 228, 128578, -255, -128, 38, 37, 39}
+Strs == {StrV(s) : s \in SeqsUpTo(IF Size >= 3 THEN Meta3 ELSE Meta, Size)}
 SV == TVar("s")
 P(t) == TPipe(SV, t)
 V1(v) == << << "s", v >> >>
